@@ -939,6 +939,18 @@ def signature_for(c, name, funcs, args_list, cfg, verdict, detail, lean):
         if has_separated_assemble(small, failing.simplify):
             skeleton = 'Assemble-inplace-separated-advanced-indices'
     head = 'compile-wrong-value' if verdict == 'mismatch' else 'compile-raises'
+    if 'optimize' in cfgclass.split('+') and isinstance(small, ev.Array):
+        # is the optimisation pass itself (not the compilation of its result) wrong?  both trees evaluated without rewriting
+        try:
+            pre = small.simplified if failing.simplify else small
+            kind, o = X.guarded(lambda: apply_opt(pre), 20)
+            if kind == 'ok' and o is not pre:
+                k1, v1 = X.real_eval(pre, sargs); k2, v2 = X.real_eval(o, sargs)
+                if k1 == 'ok' and (k2 in ('exception', 'hang') or k2 == 'ok' and not X.arrays_close(v1, v2)):
+                    merged = max([sum(not isinstance(ix, ev.Range) for ix in n.indices) for n in shrink.all_nodes(o) if isinstance(n, ev.Assemble)] + [0])
+                    return 'optimize-wrong-value:' + ('Assemble:merge-of-%d-indices' % merged if merged >= 2 else shrink.skeleton(o)), small, sargs, failing
+        except Exception:
+            pass
     return '%s:%s:%s' % (head, cfgclass, skeleton), small, sargs, failing
 
 
@@ -1650,8 +1662,41 @@ def stream_verdicts(c, streams, counts):
                  '%d scripts with forked loops: every accumulator written inside a forked loop and read after it is in shared memory and accumulated under its lock' % (tot['enum:static-scripts'] + tot['par:static-scripts']))
 
 
+def known_inputs():
+    """recorded minimal inputs of findings of this property: signature -> (funcs, args, configuration, expected value by
+    exact recomputation of the definition).  Open entries of known_findings.json with one of these signatures are re-run on
+    every check run."""
+    k = ev.constant
+    x = ev.Argument('x', (k(2), k(2), k(2)), float)
+    Dv = numpy.array([[0, 1], [2, 0]])
+    e = ev.Inflate(ev.Inflate(ev.Transpose(ev.Inflate(x, ev.Constant(types.arraydata(Dv)), k(3)), (1, 0)), k(1), k(2)), k(2), k(3))
+    X = numpy.arange(1, 9).reshape(2, 2, 2)
+    E1 = numpy.zeros((2, 3), dtype=int)
+    for a, i, j in itertools.product(range(2), range(2), range(2)):
+        E1[a, Dv[i, j]] += X[a, i, j]
+    E = numpy.zeros((3, 2, 2, 3), dtype=int)
+    E[:, :, 1, 2] = E1.T
+    return {'optimize-wrong-value:Assemble:merge-of-3-indices': (e, dict(x=X.astype(float)), Config(True, True, False, False, 1), E.astype(float))}
+
+
+def rerun_known_findings(c):
+    kin = known_inputs()
+    for entry in c.findings:
+        if entry.get('status') != 'open':
+            continue
+        rec = kin.get(entry.get('signature'))
+        if rec is None:
+            c.log('note: open known finding %r has no recorded input in this check' % entry.get('id'))
+            continue
+        funcs, args, cfg, expected = rec
+        kind, val, _, _ = run_config(funcs, [args], cfg)
+        still = kind != 'ok' or numpy.asarray(val[0]).shape != expected.shape or not (numpy.asarray(val[0]) == expected).all()
+        c.report_known_still_failing(entry, still)
+
+
 def _run(c, quick, counts, hits, broken, streams):
     rng = c.rng
+    rerun_known_findings(c)
     # =============================================================== phase A: the real code (no Lean)
     # ---- 0. deterministic Assemble stream
     bad = assemble_stream(c, counts)
